@@ -395,6 +395,7 @@ func (s *Storer) GetAofWritter(r io.Reader, offset int64) (*AofWriter, error) {
 
 	aofSeg := &dataSetAof{
 		left: offset,
+		size: -1, // being written, like the segments the writer opens when it rotates
 	}
 	s.dataSetMux.Lock()
 	s.dataSet.AppendAof(aofSeg)
